@@ -943,7 +943,8 @@ def _decompose(t, pol, out):
 class Engine:
     """run one function; `strings`: names (parameters / locals) that hold strings even though the code does not show it"""
 
-    def __init__(self, mod, fn, strings=(), params=None, follow=None, max_states=MAX_STATES):
+    def __init__(self, mod, fn, strings=(), params=None, follow=None, max_states=MAX_STATES, pins=None):
+        self.pins = dict(pins or {})          # {atom: integer}: case split decided by the rule (e.g. the rendered width of `form`)
         self.mod = mod
         self.fn = fn
         self.strings = set(strings)
@@ -976,6 +977,10 @@ class Engine:
         for x, dv in zip(a.kwonlyargs, a.kw_defaults):
             if dv is not None and self._is_str_default(dv):
                 self.strings.add(x.arg)
+        for n in walk_no_nested(fn):
+            if isinstance(n, ast.Call) and isinstance(n.func, ast.Attribute) and n.func.attr in ("format", "join", "rstrip", "lstrip", "strip", "ljust", "rjust") \
+                    and isinstance(n.func.value, ast.Name):
+                self.strings.add(n.func.value.id)
         if params:
             env.update(params)
         self.env0 = env
@@ -1210,7 +1215,14 @@ class Engine:
                 self.assign(node.target, self.ev(node.value, st), st, node)
         elif isinstance(node, ast.AugAssign):
             load = _as_load(node.target)
-            v = self.binop(node.op, self.ev(load, st), self.ev(node.value, st), st, node)
+            cur, inc = self.ev(load, st), self.ev(node.value, st)
+            if isinstance(node.op, ast.Add) and isinstance(inc, tuple) and inc[:1] == ("tuple",) and not isinstance(cur, (Lin, S)):
+                # list += [...]  is  list.extend([...])
+                self.emit(st, "call", node, name=None, recv=cur, attr="extend", args=[inc], kws={}, value=("k", None))
+                if isinstance(cur, tuple) and cur[:1] == ("tuple",):
+                    self.assign(node.target, ("tuple", cur[1] + inc[1]), st, node)
+                return
+            v = self.binop(node.op, cur, inc, st, node)
             self.assign(node.target, v, st, node)
         elif isinstance(node, ast.Expr):
             self.ev(node.value, st)
@@ -1737,6 +1749,10 @@ class Engine:
             v = self.ev(node.value, st)
             self.assign(node.target, v, st, node)
             return v
+        if isinstance(node, (ast.ListComp, ast.GeneratorExp)) and all(not g.ifs and not g.is_async for g in node.generators):
+            r = self._unroll(node, st)
+            if r is not None:
+                return r
         if isinstance(node, (ast.ListComp, ast.GeneratorExp)) and len(node.generators) == 1 and not node.generators[0].ifs and not node.generators[0].is_async:
             g = node.generators[0]
             it = self.ev(g.iter, st)
@@ -1751,6 +1767,36 @@ class Engine:
         if isinstance(node, (ast.ListComp, ast.GeneratorExp, ast.SetComp, ast.DictComp, ast.Lambda, ast.Dict, ast.Await, ast.Yield, ast.YieldFrom)):
             return ("op", "<" + type(node).__name__ + ">", (("k", ast.dump(node)),))
         raise Unsupported(f"expression {type(node).__name__}")
+
+    def _unroll(self, node, st, limit=64):
+        """[elt for a in <concrete> for b in <concrete>] -> tuple of the element values; None when an iterable is not concrete"""
+        out = []
+
+        def rec(gi, sub):
+            if len(out) > limit:
+                return False
+            if gi == len(node.generators):
+                out.append(self.ev(node.elt, sub))
+                return True
+            g = node.generators[gi]
+            it = self.ev(g.iter, sub)
+            if isinstance(it, tuple) and it[:1] == ("range",) and all(is_int_const(x) for x in it[1:]) and ival(it[3]) != 0:
+                vals = [Lin(c=x) for x in range(ival(it[1]), ival(it[2]), ival(it[3]))]
+            elif isinstance(it, tuple) and it[:1] == ("tuple",) and not any(isinstance(x, tuple) and x[:1] == ("star",) for x in it[1]):
+                vals = list(it[1])
+            else:
+                return False
+            if len(vals) > limit:
+                return False
+            for v in vals:
+                s2 = sub.fork()
+                self.assign(g.target, v, s2, node)
+                if not rec(gi + 1, s2):
+                    return False
+            return True
+        if rec(0, st.fork()):
+            return ("tuple", tuple(out))
+        return None
 
     # ------------------------------------------------------------------------------------------------------------ calls
     def call(self, node, st):
@@ -1833,7 +1879,17 @@ class Engine:
             nm = "local:" + nm
         return ("op", nm, tuple(args)) if not kws else ("op", nm, tuple(args), tuple(sorted(kws.items(), key=lambda kv: kv[0])))
 
+    def _pin(self, v):
+        if self.pins and isinstance(v, Lin):
+            for at, val in self.pins.items():
+                if at in v.t:
+                    v = v - Lin({at: v.t[at]}) + Lin(c=val * v.t[at])
+        return v
+
     def length(self, v, st):
+        return self._pin(self._length(v, st))
+
+    def _length(self, v, st):
         if isinstance(v, S):
             w = self.width(v)
             if w is not None:
